@@ -174,20 +174,29 @@ def check_c18(run):
             blocks.append(bl)
         sessions.append({"id": 9000000 + i, "kind": "conc", "target": "pool", "gated": rng.random() < 0.9, "nreq": rng.randint(2, 3),
                          "blocks": blocks, "nest": rng.choice(["plain", "if", "for"]), "pre": rng.random() < 0.4})
+    # blocks that follow each other directly (the next block is "the statement after the block") and blocks that hold the
+    # same statement several times (each copy is a statement of its own)
+    for s in sessions:
+        nb = len(s["blocks"])
+        x = rng.random()
+        if nb >= 2 and x < 0.4:
+            s["quiet"] = sorted(b for b in range(1, nb) if rng.random() < 0.7)
+        if rng.random() < 0.3:
+            s["dups"] = [rng.choice([0, 2, 3]) for _ in range(nb)]
     ns = _run(run, sessions, "conc", "ConcTrace.tla", "ConcTrace.cfg", conc_describe)
     if getattr(run, "collect", None) is not None:
         return 0
     if not run.violations:
         conc_self_test(run)
     run.cov["evaluations"] = ns
-    run.cov["distinct_nontrivial"] = len({json.dumps([s["blocks"], s["nest"], s.get("pre", False)], sort_keys=True) for s in sessions
+    run.cov["distinct_nontrivial"] = len({json.dumps([s["blocks"], s["nest"], s.get("pre", False), s.get("quiet"), s.get("dups")], sort_keys=True) for s in sessions
                                           if any(s["blocks"])})
     run.assumptions += ["children are injected functions / methods that log start, block on a gate and log end",
                         "event order = order of observer calls under one mutex"]
     return run.finish("model_checking",
                       "rule bodies = sequences of conc blocks; every body shape with <=3 (thorough: 4) children over the five child "
                       "kinds (local assignment, injected-field assignment, function, method, three-level call) x failing subsets, "
-                      "and two-block bodies, enumerated by TLC; plus seeded random bodies (<=3 blocks, <=8 children) and wide blocks (9-24 children, "
+                      "and two-block bodies (with and without a statement between the blocks), enumerated by TLC; plus seeded random bodies (<=3 blocks, <=8 children; blocks following each other directly; the same statement several times in a block) and wide blocks (9-24 children, "
                       "0-100% failing); children are "
                       "held on gates and released one at a time; distinct = distinct (blocks, nesting)")
 
